@@ -28,6 +28,8 @@ def run(check):
     check.run_rule('C04.R3', lambda c: rule_declaration_params_used(c, 'C04.R3'))
     check.run_rule('C04.R4', lambda c: rule_forger_protocol(c, 'C04.R4'))
     check.run_rule('C04.R4b', lambda c: rule_chain_order(c, 'C04.R4'))
+    from ..rules_wrappers import rule_forger_dispatch
+    check.run_rule('C04.R4e', lambda c: rule_forger_dispatch(c, 'C04.R4'))
     check.run_rule('C04.R5', lambda c: rule_wrapper_hygiene(c, 'C04.R5'))
     # bound use of an emulating declaration: the re-bound wrapper keeps the declared forger
     # forwards() is embed(outer, mask(inner, ...)): the structural soundness clauses of the two operations it is composed of
